@@ -1,6 +1,321 @@
-//! C02 -- (stub; see DESIGN.md section 5)
-use crate::util::Args;
+//! C02 -- macro parameter binding and substitution.
+//!
+//! A case is (definition, call input) over the token alphabet of TexMacro.tla.  The harness spells
+//! it as TeX source (`\def\!...{...}` then `\!` + input), runs it and records what the VM's
+//! post-macro-expansion hook saw: the arguments bound and the expansion produced, plus the tokens
+//! delivered afterwards.  R: cases printed by TLC with the expected binding; F: random larger cases
+//! recorded as events for TLC.
+use crate::util::{quiet_panics, Args, Out, Rng};
+use crate::vmh::{self, TokV};
+use serde_json::{json, Value};
+use std::io::BufRead;
 
-pub fn dispatch(_cmd: &str, _args: &Args) -> Option<i32> {
-    None
+pub fn dispatch(cmd: &str, args: &Args) -> Option<i32> {
+    Some(match cmd {
+        "c02-replay" => replay(args),
+        "c02-events" => events(args),
+        _ => return None,
+    })
+}
+
+const CHARS: [char; 10] = ['?', 'a', 'b', 'c', '.', ',', '!', '[', '|', ']'];
+const CSN: [&str; 3] = ["", "x", "y"];
+
+/// Spell a token list.  Returns None when the list cannot be produced by TeX's lexer from one line
+/// (two spaces in a row, a space after a control word): such cases are skipped and counted.
+fn render(toks: &[Value], in_body: bool) -> Option<String> {
+    let mut s = String::new();
+    let mut prev_cs_word = false;
+    let mut prev_sp = false;
+    for t in toks {
+        let c = t["c"].as_u64().unwrap_or(0) as usize;
+        let kind = t["t"].as_str().unwrap();
+        if kind == "sp" && (prev_cs_word || prev_sp) {
+            return None;
+        }
+        let mut now_cs_word = false;
+        match kind {
+            "c" => {
+                if prev_cs_word && CHARS[c].is_ascii_alphabetic() {
+                    s.push(' ');
+                }
+                s.push(CHARS[c]);
+            }
+            "sp" => s.push(' '),
+            "lb" => s.push('{'),
+            "rb" => s.push('}'),
+            "cs" => {
+                s.push('\\');
+                s.push_str(CSN[c]);
+                now_cs_word = true;
+            }
+            "hash" => {
+                if !in_body {
+                    return None;
+                }
+                s.push_str("##");
+            }
+            "par" => {
+                s.push('#');
+                s.push_str(&c.to_string());
+            }
+            _ => return None,
+        }
+        prev_sp = kind == "sp";
+        prev_cs_word = now_cs_word;
+    }
+    Some(s)
+}
+
+fn ends_with_cs(toks: &[Value]) -> bool {
+    toks.last().map(|t| t["t"] == "cs").unwrap_or(false)
+}
+
+fn render_case(d: &Value, input: &[Value]) -> Option<String> {
+    let mut s = String::from("\\endlinechar=-1 \n\\def\\!");
+    let prefix = d["prefix"].as_array().unwrap();
+    s.push_str(&render(prefix, false)?);
+    let mut last_cs = ends_with_cs(prefix);
+    for (i, dl) in d["params"].as_array().unwrap().iter().enumerate() {
+        let _ = last_cs;
+        s.push('#');
+        s.push_str(&(i + 1).to_string());
+        let dl = dl.as_array().unwrap();
+        // a delimiter that starts with a space right after #n is fine (#1 is not a control word)
+        s.push_str(&render(dl, false)?);
+        last_cs = ends_with_cs(dl);
+    }
+    if d["hb"].as_bool().unwrap() {
+        s.push('#');
+    }
+    s.push('{');
+    s.push_str(&render(d["body"].as_array().unwrap(), true)?);
+    s.push('}');
+    s.push_str("\\!");
+    // TeX removes trailing spaces of a line before lexing it: such an input cannot be written
+    if input.last().map(|t| t["t"] == "sp").unwrap_or(false) {
+        return None;
+    }
+    // \! is a control symbol: a following space *is* a token
+    s.push_str(&render(input, false)?);
+    // an input ending in a control word would swallow nothing (end of line, no end-line char)
+    Some(s)
+}
+
+fn tokv_json(t: &TokV) -> Value {
+    match t {
+        TokV::Char(' ', 10) => json!({"t":"sp","c":0}),
+        TokV::Char(_, 1) => json!({"t":"lb","c":0}),
+        TokV::Char(_, 2) => json!({"t":"rb","c":0}),
+        TokV::Char(_, 6) => json!({"t":"hash","c":0}),
+        TokV::Char(c, _) => json!({"t":"c","c":CHARS.iter().position(|x| x == c).map(|i| i as i64).unwrap_or(-1)}),
+        TokV::Cs(n) => json!({"t":"cs","c":CSN.iter().position(|x| x == n).map(|i| i as i64).unwrap_or(-1)}),
+        TokV::Active(_) => json!({"t":"active","c":-1}),
+    }
+}
+
+/// Run one case; returns the observation {args, expansion, delivered, err} or None if unrenderable.
+fn run_case(d: &Value, input: &[Value]) -> Option<Value> {
+    let src = render_case(d, input)?;
+    let mut vm = vmh::new_vm(&[], &[]);
+    vmh::macro_rec_start();
+    let r = vmh::run_src::<vmh::H>(&mut vm, "main.tex", &src, 100_000);
+    let calls = vmh::macro_rec_take();
+    let first = calls.iter().find(|c| c.name == TokV::Cs("!".to_string()));
+    let delivered: Vec<Value> = r
+        .toks
+        .iter()
+        .map(|t| match t {
+            vmh::Tok::Char(' ', _) => json!({"t":"sp","c":0}),
+            vmh::Tok::Char(_, 6) => json!({"t":"hash","c":0}),
+            vmh::Tok::Char(c, _) => json!({"t":"c","c":CHARS.iter().position(|x| x == c).map(|i| i as i64).unwrap_or(-1)}),
+            vmh::Tok::Undef(n) => json!({"t":"cs","c":CSN.iter().position(|x| x == n).map(|i| i as i64).unwrap_or(-1)}),
+            vmh::Tok::Unexp(_) => json!({"t":"unexp","c":-1}),
+        })
+        .collect();
+    let err = match &r.outcome {
+        vmh::Outcome::Ok => String::new(),
+        vmh::Outcome::Err { title, .. } => format!("error: {title}"),
+        vmh::Outcome::Panic { site, msg } => format!("panic at {site}: {msg}"),
+        vmh::Outcome::Budget => "budget".to_string(),
+    };
+    Some(match first {
+        Some(c) => json!({"called":true,
+            "args": c.args.iter().map(|a| a.iter().map(tokv_json).collect::<Vec<_>>()).collect::<Vec<_>>(),
+            "expansion": c.expansion.iter().map(tokv_json).collect::<Vec<_>>(),
+            "delivered": delivered, "err": err, "program": src}),
+        None => json!({"called":false,"args":[],"expansion":[],"delivered":delivered,"err":err,"program":src}),
+    })
+}
+
+fn read_lines(path: &str) -> Vec<Value> {
+    let f = std::fs::File::open(path).unwrap_or_else(|e| {
+        eprintln!("cannot open {path}: {e}");
+        std::process::exit(2)
+    });
+    std::io::BufReader::new(f).lines().map(|l| serde_json::from_str(&l.unwrap()).unwrap()).collect()
+}
+
+pub fn replay(args: &Args) -> i32 {
+    quiet_panics();
+    let cases = read_lines(args.req("in"));
+    let mut out = Out::new(args.str("out"));
+    let (mut run, mut skipped, mut nv) = (0u64, 0u64, 0u64);
+    let mut sample = Value::Null;
+    for c in &cases {
+        let input = c["input"].as_array().unwrap();
+        let Some(obs) = run_case(&c["d"], input) else {
+            skipped += 1;
+            continue;
+        };
+        run += 1;
+        let want = &c["want"];
+        let ok = obs["called"] == true && obs["args"] == want["args"] && obs["expansion"] == want["expansion"];
+        if !ok {
+            nv += 1;
+            if nv <= 30 {
+                out.line(&json!({"kind":"violation","part":"macro-replay","d":c["d"],"input":input,"want":want,"got":obs}));
+            }
+        } else if sample.is_null() && input.len() >= 4 {
+            sample = json!({"program":obs["program"],"args":obs["args"]});
+        }
+    }
+    out.line(&json!({"kind":"summary","part":"macro-replay","cases":cases.len(),"run":run,"skipped_unrenderable":skipped,"violations":nv,"sample":sample}));
+    0
+}
+
+// ---- random larger cases --------------------------------------------------------------------
+
+fn tk(t: &str, c: u64) -> Value {
+    json!({"t":t,"c":c})
+}
+
+fn gen_plain(rng: &mut Rng) -> Value {
+    match rng.below(10) {
+        0..=5 => tk("c", 1 + rng.below(5)),
+        6 => tk("sp", 0),
+        _ => tk("cs", 1 + rng.below(2)),
+    }
+}
+
+/// brace-balanced token list
+fn gen_balanced(rng: &mut Rng, depth: u32, out: &mut Vec<Value>, maxlen: usize) {
+    let n = rng.below(4);
+    for _ in 0..n {
+        if out.len() >= maxlen {
+            return;
+        }
+        if depth > 0 && rng.chance(1, 4) {
+            out.push(tk("lb", 0));
+            gen_balanced(rng, depth - 1, out, maxlen);
+            out.push(tk("rb", 0));
+        } else {
+            out.push(gen_plain(rng));
+        }
+    }
+}
+
+pub fn events(args: &Args) -> i32 {
+    quiet_panics();
+    let seed: u64 = args.num("seed", 1);
+    let n: usize = args.num("n", 1000);
+    let mut rng = Rng::new(seed);
+    let mut out = Out::new(args.str("out"));
+    let mut skipped = 0u64;
+    for _ in 0..n {
+        // definition
+        let np = rng.below(5) as usize + if rng.chance(1, 10) { 5 } else { 0 };
+        let np = np.min(9);
+        let mut prefix = vec![];
+        for _ in 0..rng.below(3) {
+            prefix.push(tk("c", 1 + rng.below(5)));
+        }
+        let mut params: Vec<Vec<Value>> = vec![];
+        for _ in 0..np {
+            let mut dl = vec![];
+            if rng.chance(3, 5) {
+                for _ in 0..(1 + rng.below(3)) {
+                    dl.push(match rng.below(8) {
+                        0 => tk("cs", 1 + rng.below(2)),
+                        1 => tk("sp", 0),
+                        _ => tk("c", 1 + rng.below(5)),
+                    });
+                }
+            }
+            params.push(dl);
+        }
+        let hb = np > 0 && rng.chance(1, 6);
+        let mut body = vec![tk("c", 7)];
+        for _ in 0..rng.below(2 * np as u64 + 3) {
+            match rng.below(6) {
+                0..=2 if np > 0 => body.push(tk("par", 1 + rng.below(np as u64))),
+                3 => body.push(tk("hash", 0)),
+                4 => body.push(tk("c", 8)),
+                _ => body.push(tk("c", 1 + rng.below(3))),
+            }
+        }
+        body.push(tk("c", 9));
+        let d = json!({"prefix":prefix,"params":params,"hb":hb,"body":body});
+        // call input: prefix, then per parameter an argument of a chosen shape followed by its delimiter
+        let mut input: Vec<Value> = prefix.clone();
+        for (i, dl) in params.iter().enumerate() {
+            let mut arg = vec![];
+            match rng.below(7) {
+                0 => {} // empty (only meaningful for delimited parameters)
+                1 => arg.push(tk("c", 1 + rng.below(5))),
+                2 => {
+                    arg.push(tk("lb", 0));
+                    gen_balanced(&mut rng, 2, &mut arg, 8);
+                    arg.push(tk("rb", 0));
+                }
+                3 => {
+                    // several groups
+                    for _ in 0..(2 + rng.below(2)) {
+                        arg.push(tk("lb", 0));
+                        gen_balanced(&mut rng, 1, &mut arg, 10);
+                        arg.push(tk("rb", 0));
+                    }
+                }
+                4 => {
+                    arg.push(tk("sp", 0));
+                    gen_balanced(&mut rng, 2, &mut arg, 8);
+                }
+                _ => gen_balanced(&mut rng, 3, &mut arg, 10),
+            }
+            if dl.is_empty() && !(hb && i + 1 == np) {
+                // undelimited: must be one token or one group (possibly after spaces)
+                let lead_sp = rng.chance(1, 4);
+                let one: Vec<Value> = if rng.chance(1, 2) {
+                    let mut g = vec![tk("lb", 0)];
+                    gen_balanced(&mut rng, 2, &mut g, 8);
+                    g.push(tk("rb", 0));
+                    g
+                } else {
+                    vec![match rng.below(4) { 0 => tk("cs", 1 + rng.below(2)), _ => tk("c", 1 + rng.below(5)) }]
+                };
+                if lead_sp {
+                    input.push(tk("sp", 0));
+                }
+                input.extend(one);
+            } else {
+                input.extend(arg);
+                input.extend(dl.iter().cloned());
+            }
+        }
+        if hb {
+            input.push(tk("lb", 0));
+            gen_balanced(&mut rng, 1, &mut input, 60);
+            input.push(tk("rb", 0));
+        }
+        // tokens after the call
+        for _ in 0..rng.below(4) {
+            input.push(tk("c", 1 + rng.below(5)));
+        }
+        match run_case(&d, &input) {
+            None => skipped += 1,
+            Some(obs) => out.line(&json!({"d":d,"input":input,"obs":obs})),
+        }
+    }
+    eprintln!("{}", json!({"generated":n,"skipped_unrenderable":skipped}));
+    0
 }
